@@ -1,0 +1,67 @@
+//go:build verif
+
+package keylock
+
+// Verification hooks (build tag verif only): read-only projections of the lockers' per-key state.
+
+func verifCount(d *KeyLocker) int {
+	d.locker.Lock()
+	defer d.locker.Unlock()
+	return len(d.lockMap)
+}
+
+func verifCountT[T comparable](d *TKeyLocker[T]) int {
+	d.locker.Lock()
+	defer d.locker.Unlock()
+	return len(d.lockMap)
+}
+
+// VerifEntries reports the number of per-key entries retained by an interface{}-keyed locker.
+func VerifEntries(l Locker) int {
+	switch d := l.(type) {
+	case *KeyLocker:
+		return verifCount(d)
+	case *KeyLockerGrp:
+		var n int
+		for _, s := range d.ls {
+			n += verifCount(s)
+		}
+		return n
+	}
+	return -1
+}
+
+// VerifEntriesT reports the number of per-key entries retained by a generic locker.
+func VerifEntriesT[T comparable](l TLocker[T]) int {
+	switch d := l.(type) {
+	case *TKeyLocker[T]:
+		return verifCountT(d)
+	case *TKeyLockerGrp[T]:
+		var n int
+		for _, s := range d.ls {
+			n += verifCountT(s)
+		}
+		return n
+	}
+	return -1
+}
+
+// VerifKeyCounts reports (readCount, writeCount, present) registered for key in a generic locker.
+func VerifKeyCounts[T comparable](l TLocker[T], key T) (int, int, bool) {
+	var d *TKeyLocker[T]
+	switch x := l.(type) {
+	case *TKeyLocker[T]:
+		d = x
+	case *TKeyLockerGrp[T]:
+		d = x.calculateKey(key)
+	default:
+		return 0, 0, false
+	}
+	d.locker.Lock()
+	defer d.locker.Unlock()
+	var w, ok = d.lockMap[key]
+	if !ok {
+		return 0, 0, false
+	}
+	return w.readCount, w.writeCount, true
+}
